@@ -3,7 +3,7 @@
    types; andb/orb inlined) and ExtrOcamlString (ascii => char, string => char list). nat, N, Z, positive
    stay the extracted inductive datatypes. *)
 From Coq Require Import Extraction ExtrOcamlBasic ExtrOcamlString.
-From GV Require Import Base.Util Spec.Smiles Spec.Chem Spec.Iso Model.PyLite Gen.Converter Gen.Tables Model.Library.
+From GV Require Import Base.Util Spec.Smiles Spec.Chem Spec.Iso Model.PyLite Gen.Converter Gen.Tables Model.Library Model.Gate Spec.Graft Model.Merger.
 Extraction Language OCaml.
 Extraction "../_build/extracted/gv.ml"
   Util.s2l Util.nat2str Util.str2nat
@@ -13,4 +13,7 @@ Extraction "../_build/extracted/gv.ml"
   PyLite.call PyLite.call_gen Converter.program Converter.generator_functions PyLite.py_strip
   Library.library_issues Library.library_issues_fast Library.issue_text Library.check_distinct Library.check_mirror Library.anomeric_sites Library.reduce_open Library.flip_all
   Tables.pyranoses Tables.furanoses Tables.opens Tables.functional_groups
+  Gate.gate Gate.get_smiles_model
+  Graft.denotes Graft.strip_tree Graft.glycan_mol Graft.backbone Graft.residue_frame
+  Merger.relabel Merger.merge_children Merger.sanitize Tables.dummy_atoms
   Iso.same_molecule Iso.same_constitution Iso.mirror_image Iso.iso_profiles Iso.strip_h.
